@@ -150,7 +150,7 @@ Section Spec.
       + rewrite (same_class_eq_in _ _ E). apply agrees_must.
       + destruct (py_in_scalar v vals); [apply agrees_unspec | apply agrees_mustnot].
     - (* NewType *)
-      cbn [supported_in] in Hs. destruct s; try discriminate Hs. cbn [conforms chk]. apply agrees_v_of_bool.
+      cbn [supported_in] in Hs. destruct s; try discriminate Hs; try (exact (IHs Hs v)). cbn [conforms chk]. apply agrees_v_of_bool.
     - (* FwdRef *)
       cbn [conforms chk]. destruct (ctx n); [apply agrees_v_of_bool | apply agrees_unspec].
     - (* Generic *)
@@ -193,8 +193,10 @@ Section Spec.
         destruct v; try apply agrees_mustnot.
         destruct a0; try discriminate Hargs; [apply agrees_v_of_bool | apply agrees_must].
     - (* TupleVar *)
-      cbn [supported_in] in Hs. cbn [conforms chk]. destruct v; try apply agrees_mustnot.
+      cbn [supported_in] in Hs. apply andb_true_iff in Hs as [_ Hs]. cbn [conforms chk]. destruct v; try apply agrees_mustnot.
       apply all3_agrees. intros x _. now apply IHe.
+    - (* TupleEmpty *)
+      cbn [conforms chk]. destruct v; try apply agrees_mustnot. destruct l; [apply agrees_must | apply agrees_mustnot].
     - (* Callable *)
       cbn [conforms chk]. apply callable_agrees.
   Qed.
